@@ -1,5 +1,6 @@
 import Driver.Util
 import NixModel.Pure.Units
+import NixModel.Pure.UnitsCompound
 open Lean Nix.Units
 
 namespace Driver.C09
@@ -20,9 +21,9 @@ def handle (j : Json) : Json :=
     match scaling a.toList b.toList with
     | .ok r => ok (Json.str (ratStr r))
     | .error e => err e
-  | [Json.str "invert_power", Json.str u] => ok (s2j (invertPower u.toList))
+  | [Json.str "invert_power", Json.str u] => ok (s2j (Compound.invertPower u.toList))
   | [Json.str "split_compound", Json.str u] =>
-    match splitCompound u.toList with
+    match Compound.splitCompound u.toList with
     | some l => ok (Json.arr (l.map s2j).toArray)
     | none => Json.mkObj [("err", Json.str "Exception")]
   | _ => bad "C09: unknown op"
